@@ -6,7 +6,8 @@
 EXTENDS Dnssec17, GenBase
 
 CONSTANTS Mode,      \* "keytag" | "ds" | "nsec3" | "cover" | "validity"
-          Iters      \* iteration counts for mode "nsec3"
+          Iters,     \* iteration counts for mode "nsec3"
+          KSmall     \* mode "keytag": every key over {00, ff} of at most this many octets
 
 VARIABLES v
 
@@ -21,7 +22,7 @@ FlagsAll  == {0, 1, 128, 256, 257, 384, 385, 65535}       \* SEP = 1, REVOKE = 1
 ProtoAll  == {0, 3, 255}
 AlgAll    == {0, 2, 5, 8, 13, 15, 255}                     \* never 1 (RSA/MD5 has its own key tag rule)
 KeytagCases(x) ==
-  { <<f, p, a, k>> : f \in FlagsAll, p \in ProtoAll, a \in AlgAll, k \in SmallKeys(5) }
+  { <<f, p, a, k>> : f \in FlagsAll, p \in ProtoAll, a \in AlgAll, k \in SmallKeys(KSmall) }
   \cup { <<f, 3, a, k>> : f \in {256, 385, 65535}, a \in {8, 255}, k \in BigKeys(0) }
 KeytagVector(c) ==
   LET rd == DNSKEYRdata(c[1], c[2], c[3], c[4]) IN
